@@ -65,6 +65,66 @@ func plainDesc(prefix string) func(s *Session, i int) string {
 	return func(s *Session, i int) string { return fmt.Sprintf("%s #%d", prefix, i) }
 }
 
+const cmdPkg = ledgerMod + "/internal/engine/command"
+
+// harnessDesc describes a shape by evaluating the harness's own Desc function.
+func harnessDesc(pkg, fn, prefix string) func(s *Session, i int) string {
+	return func(s *Session, i int) string {
+		if f := s.P.Func(pkg, fn); f != nil {
+			if d, err := s.In.EvalString(f, i); err == nil {
+				return prefix + " " + d
+			}
+		}
+		return fmt.Sprintf("%s #%d", prefix, i)
+	}
+}
+
+func kindDesc(s *Session, i int) string {
+	names := []string{"create(script)", "create(postings)", "revert", "set account metadata", "set transaction metadata", "delete account metadata", "delete transaction metadata"}
+	if i < len(names) {
+		return "write kind: " + names[i]
+	}
+	return fmt.Sprint("kind ", i)
+}
+
+func kindModeDesc(s *Session, i int) string {
+	modes := []string{"real", "preview", "twice through one idempotency key"}
+	return kindDesc(s, i/3) + ", mode: " + modes[i%3]
+}
+
+func cmdCfg(tier string) interp.Config {
+	return interp.Config{PanicIsViolation: true, MaxSteps: 5_000_000}
+}
+
+func commandRun(fn string, shapes func(s *Session, tier string) []int, desc func(s *Session, i int) string, canary []int) HarnessRun {
+	return HarnessRun{Pkg: cmdPkg, Dir: "internal/engine/command", Mod: "ledger", Fn: fn, Shapes: shapes, Cfg: cmdCfg, Desc: desc, CanaryShapes: canary}
+}
+
+func rangeShapes(n int) func(s *Session, tier string) []int {
+	return func(s *Session, tier string) []int {
+		out := make([]int, n)
+		for i := range out {
+			out[i] = i
+		}
+		return out
+	}
+}
+
+var cmdStubs = []string{
+	"storage.InMemoryStore (the repository's own test double) stands for the durable database; each Store call is atomic",
+	"symbolic pre-state: one preloaded chained log with arbitrary id L and one committed transaction with arbitrary id N (all that Commander.Init reads)",
+	"time.Now is a deterministic counter clock; logging is a no-op; pond.Submit(f) = go f()",
+	"sha256 values are opaque tokens compared structurally (injectivity assumed); encoding/json is modelled over ropes (DESIGN §3.7)",
+	"compiler.Compile runs natively, compilation cache bypassed",
+	"sequential requests: scheduler is deterministic (no pre-emption) in this check",
+}
+
+var cmdEncoded = []string{"command.(*Commander).CreateTransaction/RevertTransaction/SaveMeta/DeleteMetadata/exec/chainLog/nextTXID/Init", "command.(*executionContext).run/AppendLog", "command.(*DefaultLocker).Lock", "command.(*Referencer).take/release", "batching.(*Batcher).Append/nextBatch", "job.(*Runner).Run", "ledger.TxToScriptData", "ledger.(*Log).ChainLog", "ledger.(*ChainedLog).ComputeHash", "storage.(*InMemoryStore).*", "vm.*"}
+
+var cmdBounds = func(tier string) map[string]any {
+	return map[string]any{"requests": "sequential, 1-4 per scenario", "pre_state": "symbolic (L, N, opening balances)", "amounts": "unbounded integers (SMT Int)", "preemptions": 0}
+}
+
 var vmEncoded = []string{"vm.Run", "vm.(*Machine).Execute/tick/withdrawAll/withdrawAlways/credit/repay", "vm.(*Machine).ResolveResources/ResolveBalances/SetVarsFromJSON", "machine.Funding.Take/TakeMax/Concat/Total/Reverse", "machine.Allotment.Allocate", "machine.NewAllotment", "machine.MonetaryInt.*", "machine.NewValueFromString", "machine.ParseMonetary", "program.(*Program).ParseVariablesJSON"}
 
 func vmRun(fn string, canary int) HarnessRun {
@@ -72,6 +132,45 @@ func vmRun(fn string, canary int) HarnessRun {
 }
 
 var specs = map[string]*CheckSpec{
+	"C09": {
+		ID: "C09", Patterns: []string{cmdPkg}, NeedHelper: true,
+		Runs:   []HarnessRun{commandRun("ZZ_C09", countShapes(cmdPkg, "ZZ_C09N"), harnessDesc(cmdPkg, "ZZ_C09Desc", "postings (source destination asset):"), []int{1, 40, 545})},
+		Bounds: func(tier string) map[string]any {
+			return map[string]any{"postings": "1 posting: all 32 (source,destination,asset) combinations over {world,a,b,c}x{USD/2,EUR}; 2 postings: all 512 combinations with the first over USD/2; 3 postings: 8 chain/repeat/fan patterns", "amounts_and_balances": "unbounded integers (SMT Int), equal/unequal amounts decided by forking on the de-duplication map", "outside": "the HTTP handlers (JSON text cannot carry a symbolic amount); the claim starts at Postings.Validate/TxToScriptData"}
+		},
+		Assumptions: cmdStubs, Encoded: append([]string{"ledger.Postings.Validate"}, cmdEncoded...),
+		Rule: "one job per posting pattern; amounts and opening balances symbolic; committed transaction and persisted log compared posting by posting with the request; acceptance compared with the in-order coverage reading",
+	},
+	"C10": {
+		ID: "C10", Patterns: []string{cmdPkg}, NeedHelper: true,
+		Runs:   []HarnessRun{commandRun("ZZ_C10", countShapes(cmdPkg, "ZZ_C10N"), harnessDesc(cmdPkg, "ZZ_C10Desc", "revert scenario:"), []int{0, 5})},
+		Bounds: func(tier string) map[string]any {
+			return map[string]any{"original_transactions": "9 posting patterns (1-3 postings) x forced/unforced x with/without an intermediate spend of the delivered funds", "amounts_and_balances": "unbounded non-negative integers", "concurrency": "racing reverts are covered by the concurrent checks (C07/C11 family), not here"}
+		},
+		Assumptions: cmdStubs, Encoded: append([]string{"ledger.(*TransactionData).Reverse", "ledger.Postings.Reverse", "ledger.MarkReverts"}, cmdEncoded...),
+		Rule: "create the original, optionally move the funds on, revert (forced or not), revert again; postings, reverted flag, balances and log count compared symbolically",
+	},
+	"C13": {
+		ID: "C13", Patterns: []string{cmdPkg}, NeedHelper: true,
+		Runs:   []HarnessRun{commandRun("ZZ_C13", rangeShapes(7), kindDesc, []int{0, 3})},
+		Bounds: func(tier string) map[string]any {
+			return map[string]any{"log_kinds": "every write kind x target type the commander can emit (7)", "ids_amounts": "symbolic (transaction ids < 2^62)", "timestamps_metadata": "concrete (RFC3339Nano formatting of arbitrary instants and arbitrary Unicode metadata are outside the claim)"}
+		},
+		Assumptions: cmdStubs, Encoded: append([]string{"ledger.HydrateLog", "ledger.(*ChainedLog).UnmarshalJSON", "ledger.(*SetMetadataLogPayload).UnmarshalJSON", "ledger.LogType.MarshalJSON/UnmarshalJSON", "ledger.LogTypeFromString", "ledger.Time.MarshalJSON/UnmarshalJSON"}, cmdEncoded...),
+		Rule: "each log the write path persists is encoded, decoded, re-encoded (text equality as ropes) and its hash recomputed from the round-tripped entry and the predecessor",
+	},
+	"C14": {
+		ID: "C14", Patterns: []string{cmdPkg}, NeedHelper: true,
+		Runs:   []HarnessRun{commandRun("ZZ_C14", rangeShapes(7), kindDesc, []int{0, 3})},
+		Bounds: cmdBounds, Assumptions: cmdStubs, Encoded: cmdEncoded,
+		Rule: "two-world differential per write kind: [preview, real, later real] against [real, later real] from the same symbolic pre-state; responses, ids, log sequence and published events compared",
+	},
+	"C16": {
+		ID: "C16", Patterns: []string{cmdPkg}, NeedHelper: true,
+		Runs:   []HarnessRun{commandRun("ZZ_C16", rangeShapes(21), kindModeDesc, []int{0, 9})},
+		Bounds: cmdBounds, Assumptions: append([]string{"the monitor is a recording implementation of bus.Monitor; bus.ledgerMonitor's field mapping is checked separately (ZZ_C16Bus)"}, cmdStubs...), Encoded: cmdEncoded,
+		Rule: "per write kind x {real, preview, repeated through an idempotency key}: every monitor call is matched against a persisted log (ids symbolic), every persisted log has an event",
+	},
 	"C03": {
 		ID: "C03", Patterns: []string{vmPkg}, NeedShapes: true, NeedHelper: true,
 		Runs: []HarnessRun{
